@@ -443,7 +443,7 @@ def build_items(tier):
     if tier == "quick":
         cfgs = [("r2d1a1", P(nPkg=2, nDeps=1, nReg=0, nAdds=1, relative=1), 1), ("r2d1a2", P(nPkg=2, nDeps=1, nReg=0, nAdds=2, relative=0), 4),
                 ("r3d1a1", P(nPkg=3, nDeps=1, nReg=0, nAdds=1, relative=0), 5),
-                ("g2d1a1", P(nPkg=2, nDeps=1, nReg=1, nAdds=1, relative=0), 8), ("m2d1a1", P(nPkg=2, nDeps=1, nReg=0, nAdds=1, relative=0, symMeta=1, symContent=1), 3),
+                ("g2d1a1", P(nPkg=2, nDeps=1, nReg=1, nAdds=1, relative=0, twosets=1), 8), ("m2d1a1", P(nPkg=2, nDeps=1, nReg=0, nAdds=1, relative=0, symMeta=1, symContent=1), 3),
                 ("w1d1a2", P(nPkg=1, nDeps=1, nReg=0, nAdds=2, relative=1, warn=1), 2), ("g1d2a1", P(nPkg=1, nDeps=2, nReg=1, nAdds=1, relative=0, twosets=1), 8)]
     else:
         cfgs = [("r2d1a1f2", P(nPkg=2, nDeps=1, nReg=0, nAdds=1, relative=0, finders=2), 16), ("r2d2a1", P(nPkg=2, nDeps=2, nReg=0, nAdds=1, relative=0), 16),
